@@ -134,7 +134,7 @@ fn run_impl_slow(c: &AtomCase, fail_at: i64, slow_us: u32) -> Result<Outcome, Fa
         _ => {
             let mut attrs = HA::new(ctl.clone());
             attrs.val = 0;
-            let mut store: TrackStore<HA, HM, HO, HN> = TrackStore::new(HM::new(ctl.clone()), attrs, n.clone(), c.shards);
+            let mut store: QuietDrop<TrackStore<HA, HM, HO, HN>> = QuietDrop::new(TrackStore::new(HM::new(ctl.clone()), attrs, n.clone(), c.shards));
             store.add_track(dest).map_err(|e| Fail::new("harness", format!("{}", e)))?;
             let read = |store: &TrackStore<HA, HM, HO, HN>, id: u64| store.get_store(id as usize).get(&id).map(snap_track);
             let before;
@@ -374,6 +374,7 @@ fn slow_case(slow_ms: u32) -> impl Strategy<Value = SlowCase> {
 }
 
 pub fn run(env: &Env, rep: &Report) {
+    stall_watchdog(300);
     rep.set_rule("tracks with 0..3 feature classes and 0..3 observations each; operations add_observation / Track::merge / store.add (existing and missing id) / merge_external / merge_owned with class lists present in both/one/neither track and both history settings; after a fault-free run numbers the callback invocations, every position k is replayed with 'callback k fails' (exhaustive per case). Oracle: pre-state equality after failure (attributes, observations per class, metric state, merge history), zero notifications on failure / exactly one on success, success state equal to the sequential model. Non-trivial: a fault at a position > 0, or >=2 requested classes present, or history off with an absent class; distinct = distinct serialized case");
     rep.assume("harness-owned attribute/update/metric types (store_kit.rs) leave half-applied changes behind when they fail, so a missing restore is visible; metric state is observed through a follow-up optimise call on a clone; the history length seen by optimise during a merge is not compared (not pinned by the statement)");
     par_generated(rep, "faults", atom_case, env.tier.pick(20_000, 600_000), workers(), check_atom);
